@@ -689,6 +689,9 @@ def run(pm, ctx):
     ctx.import_rules(pm, 'C02', {'C02-R5'}, 'C06-R14',
                      'required / optional field listings of the IR are complete, parent first, with '
                      'complementary predicates (shared with C02-R5)')
+    ctx.import_rules(pm, 'C02', {'C02-R12'}, 'C06-R15',
+                     'the unwrap helpers of the IR peel exactly the wrappers their names say '
+                     '(shared with C02-R12)')
     from ..effects import run_decisions
     from ..ownership import OWN
     run_decisions(pm, ctx, 'C06-RD', OWN['C06'])
